@@ -17,6 +17,10 @@ CLAIMED = {
    "Exhaustive enumeration of unvalidated lattice geometries (every LineString vertex sequence up to length 4/5 on 3x3, every closed vertex sequence as a ring on 3x3 and 4x4, every shell x every simple hole and hole pairs incl. room for nesting, 4..6-hole polygons from a conflict pool under every hole order, every pair of simple 3x3 polygons as MultiPolygon, NaN/Inf at every ordinate position) with Validate / IsSimple / IsClosed / IsRing / all four decoders compared against a definitional oracle (exact rational arithmetic; interior connectivity = number of interior faces of the exact arrangement), and verdict constancy over the representation orbit (every ring start and direction, hole/member order, translations, reflections).",
    "Trust: oracle/valid.go + exact/ (independent of the library's algorithms; arrangement self-checked by Euler relation and area balance). Rings with more than 7 vertices and more than 6 interacting holes are outside the bound.",
    "bounded-exhaustive input enumeration on the real code against a definitional exact-arithmetic oracle", "4/C03"),
+ "C02": ("model_checking",
+   "Every ordered pair of a lattice operand alphabet (3x3: points, segments, paths, all simple polygons, Multi*, collections with pairwise-disjoint members, empties of every type; 6x6 holes family; star family of MultiLineStrings in every member order; exact affine images) is run through Relate in both orders and through all nine named predicates plus Intersects, and compared with the DE-9IM read off an exact joint arrangement (rational arithmetic, cells located by the OGC definitions); RelateMatches is checked against its definition on all 4^9 matrices.",
+   "Trust: exact/ + oracle/pair.go (independent of the library's DCEL). Operands above ~9 vertices per member and coordinates outside the listed affine images are outside the bound; general-position float images are covered in C01/C09's float strides only.",
+   "bounded-exhaustive input enumeration on the real code against an exact-arithmetic DE-9IM oracle", "4/C02"),
 }
 
 PENDING = {}
